@@ -1,4 +1,5 @@
 mod term;
+mod c07;
 mod c09;
 mod c23;
 mod c21;
@@ -102,6 +103,7 @@ fn main() {
         "C21" => c21::run(seed, n, _extra.first().map(|s| s.as_str()).unwrap_or("quick"), &mut out),
         "C23" => c23::run(seed, n, &mut out),
         "C09" => c09::run(seed, n, &mut out),
+        "C07" => c07::run(seed, n, &mut out),
         _ => { eprintln!("unknown property {}", prop); std::process::exit(2); }
     }
 }
